@@ -240,7 +240,6 @@ Definition step (b : backend) (s : fl) (o : op) : res (N * fl) :=
 (** ---- decision procedures of the property, evaluated on what the IMPLEMENTATION did ----
     (their soundness w.r.t. the declarative statements is proved in FreelistProofs.v) *)
 
-Definition eqlN (a b : list N) : bool := if list_eq_dec N.eq_dec a b then true else false.
 
 (** Allocate(n) returned [ret]; [fb]/[fa] = free ids before/after (sorted). *)
 Definition alloc_ok (b : backend) (fb : list N) (n ret : N) (fa : list N) : bool :=
